@@ -1,4 +1,5 @@
 import FpVerif.Properties.C19
+import FpVerif.Properties.C19_Block
 import FpVerif.Properties.C19_Gen
 import FpVerif.Properties.C19_More
 import FpVerif.Properties.C19_Raw
@@ -26,6 +27,9 @@ import FpVerif.Properties.C19_Raw
 #print axioms Fp.C19.settingsList_encode
 #print axioms Fp.C19.settings_roundtrip
 #print axioms Fp.C19.headers_roundtrip
+#print axioms Fp.C19.conts_over_frames
+#print axioms Fp.C19.header_block_over_frames
+#print axioms Fp.C19.header_block_fields
 #print axioms Fp.C19.gen_ok_parser_table
 #print axioms Fp.C19.gen_ok_frame_types
 #print axioms Fp.C19.gen_ok_flags
